@@ -399,10 +399,18 @@ func Worker(t *testing.T, w World) {
 				rp := Replay{Property: prop, World: w.Name(), Oracle: v.Oracle, Fingerprint: v.Fingerprint, Msg: v.Msg,
 					Seed: seed, RunIndex: idx, Scenario: scb, Trace: res.Trace, Digest: res.Digest, Seq: v.Seq,
 					OrigOps: len(res.Trace), SrcDigest: src}
-				if os.Getenv("VERIF_NO_MINIMISE") == "" {
+				// a listed known finding is only reported: no minimisation, no replay file
+				// (its replay is kept under findings/)
+				listed := false
+				for _, k := range strings.Split(os.Getenv("VERIF_KNOWN_FPS"), ",") {
+					if k != "" && k == v.Fingerprint {
+						listed = true
+					}
+				}
+				if os.Getenv("VERIF_NO_MINIMISE") == "" && !listed {
 					rp = Minimise(t, w, rp, 60*time.Second)
 				}
-				if replayDir != "" {
+				if replayDir != "" && !listed {
 					name := fmt.Sprintf("%s/%s-%s-s%d-r%d.json", replayDir, prop, sanitize(v.Fingerprint), seed, idx)
 					b, _ := json.MarshalIndent(rp, "", " ")
 					os.WriteFile(name, b, 0o644)
